@@ -237,7 +237,7 @@ func gen(t *rapid.T) Case {
 			if j == realAt {
 				r.Handlers = append(r.Handlers, "real")
 			} else {
-				r.Handlers = append(r.Handlers, rapid.SampledFrom([]string{"reject", "reject", "accept", "accept", "reject-disabled", "reject-disabled", "reject-invalid", "reject-unknown", "reject-untyped", "reject-panic-typed", "panic", "accept-genfail", "accept-genfail-conf", "accept-genfail-untyped"}).Draw(t, fmt.Sprintf("%sH%d", l, j)))
+				r.Handlers = append(r.Handlers, rapid.SampledFrom([]string{"reject", "reject", "accept", "accept", "reject-disabled", "reject-disabled", "reject-invalid", "reject-unknown", "reject-untyped", "reject-panic-typed", "reject-nocause", "reject-nocause-nameless", "reject-nilcause", "panic", "accept-genfail", "accept-genfail-conf", "accept-genfail-untyped"}).Draw(t, fmt.Sprintf("%sH%d", l, j)))
 			}
 		}
 		if rapid.IntRange(0, 3).Draw(t, l+"SameNames") == 1 {
@@ -735,7 +735,7 @@ func orDefault(name string) string {
 	return name
 }
 
-const rule = "histories of 1..4 runs of gensign.Run sharing one registered-key directory (a third of the later runs first replace, break or delete a '<name>.pub' / '<name>' file) and one scripted forwarded agent; in half of the histories every run uses the same regular.Handler object and forwarded connection, otherwise each run builds its own. In a quarter of the histories a second regular handler is built in the same process from another configuration (another key directory in which every login name is registered with a key the agent holds, another validity, other slots) right after each handler the runs use. In an eighth of the histories the process's entropy source (crypto/rand.Reader) hands out only 1..7 bytes per Read call, as an io.Reader may. Per run: login name (incl. names of other users, 'alice.pub', and 'Alice' / 'BOB' / 'caRol', which have no key file of their own), namespace policy NONS / NSOK and spellings that are neither (other letter case, a trailing blank, empty, a prefix, both joined), hardware-key flag, client-declared user / host different from the login name (short, or 55..3000 bytes long), parameters built directly or through NewReqParam, agent behaviour {honest, lacks the key, signs with another key, signs other data, replays a signature captured earlier in the history, garbage, empty signature, failure, closes the connection}, handler list of 1..4 entries (in a quarter of the runs all harness handlers report one and the same name - the real handler's or another -, as instances of one handler type do) with at most one real regular handler among accepting harness handlers and harness handlers rejecting with every kind of error (authentication, disabled, invalid parameters, unknown, panic-typed, untyped) or panicking inside Authenticate, and accepting harness handlers whose Generate then fails (generation, configuration or untyped error); a tenth of the directly built parameter sets carry no client attributes at all. Directory: '<n>.pub' and bare '<n>' files holding any user's key (RSA, ECDSA, Ed25519, and the types nobody can answer for through the forwarded agent: security-key types (the honest agent does answer for the sk-ed25519 one, as a token would), a certificate line, DSA), both with different keys, unparsable, absent; a tenth of the key files hold 2..4 lines (keys of any of these kinds, unparsable lines), where a proof under any line's key counts as a proof under a registered key. Oracle: the harness sees every sign request and reply and decides itself (K.Verify over this run's challenge under the registered key) whether the real handler may authenticate; CA call or add-identity => the selected handler is the first in list order that authenticates, earlier ones asked once, later ones never; none => AllAuthFailed, no Generate, no CA call, no add; a handler that crashes while authenticating never counts as authenticated (error returned, no CA call, no add, no later handler used); the first handler that authenticates cannot generate => error, no CA call, no add, no later handler used; a handler authenticates (and generates) => the run succeeds with exactly one request from that handler; challenges are 64 bytes, filled and not mostly predictable text (fewer than 17 zero bytes, at least 36 different byte values: both fail for random bytes with a chance below 1e-14), only under the registered key, pairwise distinct over the history. Non-trivial: an adversarial agent while the key file exists, or a reject before an accept in a list of >= 2."
+const rule = "histories of 1..4 runs of gensign.Run sharing one registered-key directory (a third of the later runs first replace, break or delete a '<name>.pub' / '<name>' file) and one scripted forwarded agent; in half of the histories every run uses the same regular.Handler object and forwarded connection, otherwise each run builds its own. In a quarter of the histories a second regular handler is built in the same process from another configuration (another key directory in which every login name is registered with a key the agent holds, another validity, other slots) right after each handler the runs use. In an eighth of the histories the process's entropy source (crypto/rand.Reader) hands out only 1..7 bytes per Read call, as an io.Reader may. Per run: login name (incl. names of other users, 'alice.pub', and 'Alice' / 'BOB' / 'caRol', which have no key file of their own), namespace policy NONS / NSOK and spellings that are neither (other letter case, a trailing blank, empty, a prefix, both joined), hardware-key flag, client-declared user / host different from the login name (short, or 55..3000 bytes long), parameters built directly or through NewReqParam, agent behaviour {honest, lacks the key, signs with another key, signs other data, replays a signature captured earlier in the history, garbage, empty signature, failure, closes the connection}, handler list of 1..4 entries (in a quarter of the runs all harness handlers report one and the same name - the real handler's or another -, as instances of one handler type do) with at most one real regular handler among accepting harness handlers and harness handlers rejecting with every kind of error (authentication, disabled, invalid parameters, unknown, panic-typed, untyped, typed errors without a wrapped cause) or panicking inside Authenticate, and accepting harness handlers whose Generate then fails (generation, configuration or untyped error); a tenth of the directly built parameter sets carry no client attributes at all. Directory: '<n>.pub' and bare '<n>' files holding any user's key (RSA, ECDSA, Ed25519, and the types nobody can answer for through the forwarded agent: security-key types (the honest agent does answer for the sk-ed25519 one, as a token would), a certificate line, DSA), both with different keys, unparsable, absent; a tenth of the key files hold 2..4 lines (keys of any of these kinds, unparsable lines), where a proof under any line's key counts as a proof under a registered key. Oracle: the harness sees every sign request and reply and decides itself (K.Verify over this run's challenge under the registered key) whether the real handler may authenticate; CA call or add-identity => the selected handler is the first in list order that authenticates, earlier ones asked once, later ones never; none => AllAuthFailed, no Generate, no CA call, no add; a handler that crashes while authenticating never counts as authenticated (error returned, no CA call, no add, no later handler used); the first handler that authenticates cannot generate => error, no CA call, no add, no later handler used; a handler authenticates (and generates) => the run succeeds with exactly one request from that handler; challenges are 64 bytes, filled and not mostly predictable text (fewer than 17 zero bytes, at least 36 different byte values: both fail for random bytes with a chance below 1e-14), only under the registered key, pairwise distinct over the history. Non-trivial: an adversarial agent while the key file exists, or a reject before an accept in a list of >= 2."
 
 // TestC01Slow: a forwarded agent that takes seconds to answer the challenge (and then proves
 // possession, refuses, or answers with another key), under a run deadline that is longer than that.
